@@ -780,16 +780,17 @@ def correspondence(ctx):
             if len(c.samples) < 10 and (tag == "corpus" or c.evaluations % 1013 < 30):
                 c.samples.append(dict(tag=tag, history=" ; ".join(op_text(o) for o in done)[:300], final=snaps[-1][:160],
                                       before_closing=snaps[max(0, len(snaps) - 12)][:160]))
-    # the real INSPECT round trip for a run-time class (baton mode; no model side)
-    c.count("extra:dynclass-with-real-inspect")
-    c.evaluations += 1
-    try:
-        extra = extra_dynclass_baton()
-    except Exception as ex:  # noqa
-        extra = ["the baton-mode class scenario could not run: %r" % (ex,)]
-    for e in extra:
-        c.disagreements.append(dict(case=dict(kind="extra", name="dynclass-baton"), impl=e,
-                                    model="(statement-level observation; the model predicts none)"))
+    # baton-mode scenarios with run-time classes and the real INSPECT round trip (no model side)
+    for name, fn in sorted(extras().items()):
+        c.count("extra:" + name)
+        c.evaluations += 1
+        try:
+            extra = fn()
+        except Exception as ex:  # noqa
+            extra = ["the scenario %s could not run: %r" % (name, ex)]
+        for e in extra:
+            c.disagreements.append(dict(case=dict(kind="extra", name=name), impl=e,
+                                        model="(statement-level observation; the model predicts none)"))
     c.exhaustive = bool(full1 and full2)
     return c
 
@@ -851,6 +852,101 @@ def extra_dynclass_baton():
     return errs
 
 
+def extra_release_overtakes():
+    """A release notice must not overtake the reference it travels behind while that reference is being received.
+    Baton mode, run-time classes (real HANDLE_INSPECT, whose nested serve() dispatches what is queued behind the
+    package).  (1) reply form: B's `f(x)` returns `(Fresh(), x)` where `x` is B's only proxy of A's object — it dies
+    when the request is done, so HANDLE_DEL travels right behind the reply.  (2) request form: B calls A's `g(Fresh2(),
+    x)` asynchronously and lets `x` go before A serves the request.  The statement wants: the caller gets its own
+    object (`is`), afterwards the owner's table does not hold it and it is collectable.  Real code only."""
+    import simnet
+    import rpyc
+    from rpyc.core import brine
+    from rpyc.lib import get_id_pack
+    errs = []
+    net = simnet.Net()
+    with net.installed():
+        ca, cb = net.connect_pair(compress=False)
+        try:
+            def fresh_class(name):
+                return type(name, (object,), {"tag": name})
+            log = {}
+
+            def f(x):                                  # runs at B
+                return (fresh_class("FreshInReply")(), x)
+
+            def h(x, g):                               # runs at B: pass x on in a request and let go of it at once
+                res = rpyc.async_(g)(fresh_class("FreshInRequest")(), x)
+                log["pending"] = res
+                return None
+
+            def g(fresh, x):                           # runs at A
+                log["g_got_proxy"] = isinstance(fresh, rpyc.BaseNetref)
+                log["g_x"] = x
+                return None
+
+            def ping():
+                return None
+            f_p, h_p, ping_p = [ca._unbox(brine.load(brine.dump(cb._box(fn)))) for fn in (f, h, ping)]
+            Thing = type("Thing", (object,), {})
+            # (1) reply form
+            t = Thing()
+            pack = get_id_pack(t)
+            pack = (str(pack[0]), pack[1], pack[2])
+            try:
+                r = f_p(t)
+                if not (type(r) is tuple and len(r) == 2 and isinstance(r[0], rpyc.BaseNetref)):
+                    errs.append("reply (fresh object, handed-back object): the fresh object did not arrive as a proxy")
+                elif r[1] is not t:
+                    errs.append("reply (fresh object, handed-back object): the handed-back object is not the original")
+                del r
+            except Exception as ex:  # noqa
+                errs.append("reply (fresh object, handed-back object) with the release notice right behind it raised %s"
+                            % type(ex).__name__.split(".")[-1])
+            ping_p()
+            if pack in ca._local_objects._dict:
+                errs.append("after the reply scenario the owner's table still holds the object")
+            wr = weakref.ref(t)
+            del t
+            gc.collect()
+            if wr() is not None:
+                errs.append("after the reply scenario the object is not collectable")
+            # (2) request form
+            t2 = Thing()
+            pack2 = get_id_pack(t2)
+            pack2 = (str(pack2[0]), pack2[1], pack2[2])
+            try:
+                h_p(t2, g)
+                ping_p()
+                ping_p()
+                if log.get("g_x") is not t2:
+                    errs.append("request (fresh object, handed-back object): the handler did not receive the original object"
+                                " (got %s)" % type(log.get("g_x")).__name__)
+                if not log.get("g_got_proxy"):
+                    errs.append("request (fresh object, handed-back object): the fresh object did not arrive as a proxy")
+                pend = log.get("pending")
+                if pend is not None and pend.ready and pend.error:
+                    errs.append("request (fresh object, handed-back object) was answered with an exception")
+            except Exception as ex:  # noqa
+                errs.append("request (fresh object, handed-back object) with the release notice right behind it raised %s"
+                            % type(ex).__name__.split(".")[-1])
+            log.clear()
+            ping_p()
+            if pack2 in ca._local_objects._dict:
+                errs.append("after the request scenario the owner's table still holds the object")
+        except Exception as ex:  # noqa
+            errs.append("the overtaking scenario raised %s: %s" % (type(ex).__name__.split(".")[-1], str(ex)[:100]))
+        finally:
+            f_p = h_p = ping_p = None
+            log.clear()
+            net.shutdown([ca])
+    return errs
+
+
+def extras():
+    return {"dynclass-baton": extra_dynclass_baton, "release-overtakes-reference": extra_release_overtakes}
+
+
 # ---------------------------------------------------------------------------------------------- direct oracle
 def oracle_history(ops, n=N_OBJS, close_side="A", kinds=None):
     """the property statement evaluated on the real code for one history; None if it holds, else what failed"""
@@ -907,9 +1003,6 @@ def oracle_search(ctx, corr, broken):
     for d in corr.disagreements[:60]:
         case = d.get("case") or {}
         if case.get("kind") == "extra":
-            errs = extra_dynclass_baton()
-            if errs and "c10:dynclass-baton" not in getattr(ctx, "known_signatures", set()):
-                return dict(kind="extra", name="dynclass-baton"), "; ".join(errs), "c10:dynclass-baton"
             continue
         ops = strip_closing(case.get("ops") or [])
         n = case.get("n", N_OBJS)
@@ -932,9 +1025,10 @@ def oracle_search(ctx, corr, broken):
                 res = found(ops, N_OBJS, msg, kinds)
                 if res:
                     return res
-    errs = extra_dynclass_baton()
-    if errs and "c10:dynclass-baton" not in getattr(ctx, "known_signatures", set()):
-        return dict(kind="extra", name="dynclass-baton"), "; ".join(errs), "c10:dynclass-baton"
+    for name, fn in sorted(extras().items()):
+        errs = fn()
+        if errs and ("c10:" + name) not in getattr(ctx, "known_signatures", set()):
+            return dict(kind="extra", name=name), "; ".join(errs), "c10:" + name
     # 3. fresh histories
     i = 0
     while time.time() < deadline:
@@ -953,7 +1047,7 @@ def oracle_search(ctx, corr, broken):
 
 def replay(case):
     if case.get("kind") == "extra":
-        return dict(case=case, implementation=extra_dynclass_baton() or "holds")
+        return dict(case=case, implementation=extras()[case["name"]]() or "holds")
     ops, n, kinds = case["ops"], case.get("n", N_OBJS), case.get("kinds")
     has_close = any(o[0] == "close" for o in ops)
     done, snaps, errs = run_history(ops, n=n, final=not has_close, kinds=kinds)
